@@ -110,40 +110,85 @@ theorem lookup2_cacheAdd (cache : Cache) (i m a i' m' : Str) :
       by_cases hm : m = m' <;> simp [dictGet_dictSet, h, hm]
     · simp [dictGet_dictSet, hi]
 
-theorem lookup2_foldl (attrs : List (Str × Func)) (cache : Cache) (i m : Str) :
-    lookup2 (attrs.foldl cacheStep cache) i m =
-    match attrs.reverse.find? (fun a => a.2.deco = some (i, m)) with
+theorem lookup2_nil (i m : Str) : lookup2 [] i m = none := rfl
+
+/-! ### the class body: functions and properties -/
+
+/-- the functions of a class body -/
+def bodyFuncs (body : List BodyEntry) : List (Str × Func) :=
+  body.filterMap fun e => match e with
+    | .func a => some a
+    | .prop _ => none
+
+theorem bodyFuncs_props (l : List (Nat × Str)) : bodyFuncs (l.map fun p => BodyEntry.prop p.2) = [] := by
+  induction l with
+  | nil => rfl
+  | cons p t ih => simp [bodyFuncs]
+
+theorem bodyFuncs_mergeBody (attrs : List (Str × Func)) (props : List (Nat × Str)) (n : Nat) :
+    bodyFuncs (mergeBody attrs props n) = attrs := by
+  induction attrs generalizing n with
+  | nil => exact bodyFuncs_props _
+  | cons a t ih =>
+    unfold mergeBody
+    have h1 := bodyFuncs_props (props.filter fun p => p.1 = n)
+    unfold bodyFuncs at h1 ih ⊢
+    rw [List.filterMap_append, h1, List.filterMap_cons]
+    simp only [List.nil_append]
+    rw [ih (n + 1)]
+
+theorem bodyFuncs_body (c : Class) : bodyFuncs c.body = c.attrs := bodyFuncs_mergeBody _ _ _
+
+theorem lookup2_cacheTouch (cache : Cache) (i i' m' : Str) :
+    lookup2 (cacheTouch cache i) i' m' = lookup2 cache i' m' := by
+  unfold cacheTouch
+  cases h : dictGet cache i with
+  | some ms => rfl
+  | none =>
+    unfold lookup2
+    by_cases hi : i = i'
+    · subst hi; simp [dictGet_dictSet, h, dictGet]
+    · simp [dictGet_dictSet, hi]
+
+theorem lookup2_body_foldl (body : List BodyEntry) (cache : Cache) (i m : Str) :
+    lookup2 (body.foldl bodyStep cache) i m =
+    match (bodyFuncs body).reverse.find? (fun a => a.2.deco = some (i, m)) with
     | some a => some a.1
     | none => lookup2 cache i m := by
-  induction attrs generalizing cache with
-  | nil => simp
-  | cons a t ih =>
-    rw [List.foldl_cons, ih, List.reverse_cons, List.find?_append]
-    cases ht : t.reverse.find? (fun a => a.2.deco = some (i, m)) with
-    | some x => simp
-    | none =>
-      simp only [Option.none_or, List.find?]
-      obtain ⟨an, ⟨aid, adeco, aw⟩⟩ := a
-      cases adeco with
-      | none => simp [cacheStep]
-      | some im =>
-        obtain ⟨i', m'⟩ := im
-        simp only [cacheStep]
-        by_cases h : i' = i ∧ m' = m
-        · obtain ⟨h1, h2⟩ := h
-          subst h1; subst h2
-          simp [lookup2_cacheAdd]
-        · have : ¬ (some (i', m') = some (i, m)) := by
-            intro hh; injection hh with hh; injection hh with h1 h2; exact h ⟨h1, h2⟩
-          simp [lookup2_cacheAdd, h, this]
-
-theorem lookup2_nil (i m : Str) : lookup2 [] i m = none := rfl
+  induction body generalizing cache with
+  | nil => simp [bodyFuncs]
+  | cons e t ih =>
+    cases e with
+    | prop j =>
+      have hb : bodyFuncs (BodyEntry.prop j :: t) = bodyFuncs t := by simp [bodyFuncs]
+      rw [List.foldl_cons, ih, hb]
+      simp only [bodyStep, lookup2_cacheTouch]
+    | func a =>
+      have hb : bodyFuncs (BodyEntry.func a :: t) = a :: bodyFuncs t := by simp [bodyFuncs]
+      rw [List.foldl_cons, ih, hb, List.reverse_cons, List.find?_append]
+      cases ht : (bodyFuncs t).reverse.find? (fun a => a.2.deco = some (i, m)) with
+      | some x => simp
+      | none =>
+        simp only [Option.none_or, List.find?, bodyStep]
+        obtain ⟨an, ⟨aid, adeco, aw⟩⟩ := a
+        cases adeco with
+        | none => simp [cacheStep]
+        | some im =>
+          obtain ⟨i', m'⟩ := im
+          simp only [cacheStep]
+          by_cases h : i' = i ∧ m' = m
+          · obtain ⟨h1, h2⟩ := h
+            subst h1; subst h2
+            simp [lookup2_cacheAdd]
+          · have : ¬ (some (i', m') = some (i, m)) := by
+              intro hh; injection hh with hh; injection hh with h1 h2; exact h ⟨h1, h2⟩
+            simp [lookup2_cacheAdd, h, this]
 
 theorem lookup2_cacheOfClass (c : Class) (i m : Str) :
     lookup2 (cacheOfClass c) i m =
       (c.attrs.reverse.find? fun a => a.2.deco = some (i, m)).map (·.1) := by
   unfold cacheOfClass
-  rw [lookup2_foldl]
+  rw [lookup2_body_foldl, bodyFuncs_body]
   cases c.attrs.reverse.find? (fun a => a.2.deco = some (i, m)) <;> simp [lookup2_nil]
 
 /-! ### the branch of `_searchCache` for an empty interface name -/
@@ -219,68 +264,95 @@ theorem nodup_keysOf_cacheAdd (cache : Cache) (i m a : Str) (h : (keysOf cache).
     subst hy
     intro hxy; subst hxy; exact hni hx
 
-/-- the invariant of the cache-building fold, relative to the class attributes processed so far -/
-structure CacheInv (cache : Cache) (pre : List (Str × Func)) : Prop where
-  nodup : (keysOf cache).Nodup
-  scan : ∀ {β : Type} (g : Str → Option β), (keysOf cache).findSome? g = (decoIfaces pre).findSome? g
-
-theorem decoIfaces_snoc (pre : List (Str × Func)) (a : Str × Func) :
-    decoIfaces (pre ++ [a]) = decoIfaces pre ++ (match a.2.deco with | some (i, _) => [i] | none => []) := by
-  unfold decoIfaces
-  rw [List.filterMap_append]
-  cases h : a.2.deco with
-  | none => simp [h]
-  | some im => obtain ⟨i, m⟩ := im; simp [h]
-
-theorem cacheInv_step (cache : Cache) (pre : List (Str × Func)) (a : Str × Func) (h : CacheInv cache pre) :
-    CacheInv (cacheStep cache a) (pre ++ [a]) := by
-  unfold cacheStep
-  cases hd : a.2.deco with
+theorem keysOf_cacheTouch (cache : Cache) (i : Str) :
+    keysOf (cacheTouch cache i) = if i ∈ keysOf cache then keysOf cache else keysOf cache ++ [i] := by
+  unfold cacheTouch
+  cases h : dictGet cache i with
+  | some ms =>
+    have : i ∈ keysOf cache := (dictGet_isSome_iff cache i).mp (by simp [h])
+    simp [this]
   | none =>
-    refine ⟨h.nodup, ?_⟩
-    intro β g
-    rw [decoIfaces_snoc, hd]; simpa using h.scan g
-  | some im =>
-    obtain ⟨i, m⟩ := im
-    simp only
-    refine ⟨nodup_keysOf_cacheAdd cache i m a.1 h.nodup, ?_⟩
-    intro β g
-    rw [decoIfaces_snoc, hd, keysOf_cacheAdd, List.findSome?_append]
-    by_cases hi : i ∈ keysOf cache
-    · rw [if_pos hi, h.scan g]
-      cases hs : (decoIfaces pre).findSome? g with
-      | some b => rfl
-      | none =>
-        have := h.scan g
-        rw [hs, List.findSome?_eq_none_iff] at this
-        simp [this i hi]
-    · rw [if_neg hi, List.findSome?_append, h.scan g]
+    simp only [keysOf_dictSet]
 
-theorem cacheInv_foldl (t : List (Str × Func)) (cache : Cache) (pre : List (Str × Func)) (h : CacheInv cache pre) :
-    CacheInv (t.foldl cacheStep cache) (pre ++ t) := by
+/-- the invariant of the cache-building fold, relative to the class-body entries processed so far -/
+structure CacheInv (cache : Cache) (pre : List BodyEntry) : Prop where
+  nodup : (keysOf cache).Nodup
+  scan : ∀ {β : Type} (g : Str → Option β), (keysOf cache).findSome? g = (bodyIfaces pre).findSome? g
+
+theorem nodup_addKey (ks : List Str) (i : Str) (h : ks.Nodup) :
+    (if i ∈ ks then ks else ks ++ [i]).Nodup := by
+  split
+  · exact h
+  · rename_i hni
+    rw [List.nodup_append]
+    refine ⟨h, by simp, ?_⟩
+    intro x hx y hy
+    simp at hy
+    subst hy
+    intro hxy; subst hxy; exact hni hx
+
+/-- one more key `i` (appended when new), one more mention of `i` in the class body -/
+theorem cacheInv_addKey (cache cache' : Cache) (pre : List BodyEntry) (e : BodyEntry) (i : Str)
+    (h : CacheInv cache pre)
+    (hk : keysOf cache' = if i ∈ keysOf cache then keysOf cache else keysOf cache ++ [i])
+    (he : bodyIfaces (pre ++ [e]) = bodyIfaces pre ++ [i]) : CacheInv cache' (pre ++ [e]) := by
+  refine ⟨by rw [hk]; exact nodup_addKey _ _ h.nodup, ?_⟩
+  intro β g
+  rw [he, hk, List.findSome?_append]
+  by_cases hi : i ∈ keysOf cache
+  · rw [if_pos hi, h.scan g]
+    cases hs : (bodyIfaces pre).findSome? g with
+    | some b => rfl
+    | none =>
+      have := h.scan g
+      rw [hs, List.findSome?_eq_none_iff] at this
+      simp [this i hi]
+  · rw [if_neg hi, List.findSome?_append, h.scan g]
+
+theorem cacheInv_step (cache : Cache) (pre : List BodyEntry) (e : BodyEntry) (h : CacheInv cache pre) :
+    CacheInv (bodyStep cache e) (pre ++ [e]) := by
+  cases e with
+  | prop i =>
+    exact cacheInv_addKey cache _ pre _ i h (keysOf_cacheTouch cache i) (by simp [bodyIfaces])
+  | func a =>
+    simp only [bodyStep, cacheStep]
+    cases hd : a.2.deco with
+    | none =>
+      refine ⟨h.nodup, ?_⟩
+      intro β g
+      have : bodyIfaces (pre ++ [BodyEntry.func a]) = bodyIfaces pre := by simp [bodyIfaces, hd]
+      rw [this]; exact h.scan g
+    | some im =>
+      obtain ⟨i, m⟩ := im
+      exact cacheInv_addKey cache _ pre _ i h (keysOf_cacheAdd cache i m a.1) (by simp [bodyIfaces, hd])
+
+theorem cacheInv_foldl (t : List BodyEntry) (cache : Cache) (pre : List BodyEntry) (h : CacheInv cache pre) :
+    CacheInv (t.foldl bodyStep cache) (pre ++ t) := by
   induction t generalizing cache pre with
   | nil => simpa using h
   | cons a t ih =>
-    have := ih (cacheStep cache a) (pre ++ [a]) (cacheInv_step cache pre a h)
+    have := ih (bodyStep cache a) (pre ++ [a]) (cacheInv_step cache pre a h)
     simpa using this
 
 theorem cacheInv_nil : CacheInv [] [] := ⟨by simp [keysOf], by intro β g; rfl⟩
 
 /-- `_searchCache('', 'methods', key)` on one class. -/
 theorem searchAny_cacheOfClass (c : Class) (key : Str) :
-    firstSome (fun ic => dictGet ic.2 key) (cacheOfClass c) = decoratedAnyIn c.attrs key := by
-  have inv := cacheInv_foldl c.attrs [] [] cacheInv_nil
+    firstSome (fun ic => dictGet ic.2 key) (cacheOfClass c) = decoratedAnyIn c key := by
+  have inv := cacheInv_foldl c.body [] [] cacheInv_nil
   simp only [List.nil_append] at inv
-  unfold cacheOfClass decoratedAnyIn
-  rw [firstSome_entries _ (fun ms => dictGet ms key) inv.nodup]
-  have : (fun k => (dictGet (List.foldl cacheStep [] c.attrs) k).bind fun ms => dictGet ms key) =
+  unfold decoratedAnyIn
+  have hc : cacheOfClass c = List.foldl bodyStep [] c.body := rfl
+  rw [hc, firstSome_entries _ (fun ms => dictGet ms key) inv.nodup]
+  have : (fun k => (dictGet (List.foldl bodyStep [] c.body) k).bind fun ms => dictGet ms key) =
       fun k => lastDecorated c.attrs k key := by
     funext k
     have := lookup2_cacheOfClass c k key
-    unfold lookup2 cacheOfClass at this
+    unfold lookup2 at this
+    rw [hc] at this
     unfold lastDecorated
     rw [← this]
-    cases dictGet (List.foldl cacheStep [] c.attrs) k <;> rfl
+    cases dictGet (List.foldl bodyStep [] c.body) k <;> rfl
   rw [this]
   exact inv.scan _
 
